@@ -3,11 +3,13 @@
 //!
 //!   iosim reader --runs N --long M [--seed S] --out summary.json --replay-dir DIR --tag T
 //!   iosim writer --runs N --sweep 0|1 [--seed S] --out summary.json --replay-dir DIR --tag T
+//!   iosim census --side writer|reader --every32 K --wide-blocks B [--seed S] --out F --replay-dir DIR --tag T
 //!   iosim replay FILE            exit 1 iff the recorded run still violates (prints the class)
 //!   iosim digest reader|writer --runs N   per-run trace digests (determinism self-test)
 //!
 //! Exit status: 0 = completed (violations, if any, are listed in the summary), 2 = harness error.
 
+mod census;
 mod model;
 mod rgen;
 mod rrun;
@@ -48,6 +50,25 @@ fn main() {
                 }
             }
         }
+        "census" => {
+            let side = match arg(&args, "--side").as_deref() {
+                Some("reader") => census::Side::Reader,
+                _ => census::Side::Writer,
+            };
+            let every32: u64 = arg(&args, "--every32").and_then(|s| s.parse().ok()).unwrap_or(0);
+            let wide: u64 = arg(&args, "--wide-blocks").and_then(|s| s.parse().ok()).unwrap_or(8);
+            let seed: u64 = arg(&args, "--seed").and_then(|s| s.parse().ok()).unwrap_or_else(simcore::verif_seed);
+            let replay_dir = arg(&args, "--replay-dir").unwrap_or_else(|| ".".into());
+            let tag = arg(&args, "--tag").unwrap_or_else(|| "x".into());
+            let text = census::run(side, seed, every32, wide, &replay_dir, &tag).pretty();
+            match arg(&args, "--out") {
+                Some(p) => std::fs::write(&p, text).map(|_| 0).unwrap_or(2),
+                None => {
+                    print!("{}", text);
+                    0
+                }
+            }
+        }
         "replay" => {
             let path = match args.get(2) {
                 Some(p) => p,
@@ -74,6 +95,7 @@ fn main() {
             match rec.str_of("engine") {
                 Some("iosim-reader") => rrun::replay(rec),
                 Some("iosim-writer") => wrun::replay(rec),
+                Some("iosim-census") => census::replay(rec),
                 other => {
                     eprintln!("iosim: not an iosim record (engine = {:?})", other);
                     2
